@@ -330,6 +330,40 @@ theorem d_curvature_symmetric [Field α] (T : List (List (Cx α))) (nVis nCols :
   · have h' : ¬ j = i := fun e => h e.symm
     simp [h, h']
 
+/-- (d4) the operated mapping matrix the normal equations are built from is the `hstack` of the
+    per-object transformed mapping matrices: one row per visibility, each row the concatenation, in
+    object order, of that row of every object's transformed matrix (so (b1) describes every column). -/
+theorem d_operated_mapping_matrix_rows {β : Type} (nVis : Nat) (Ts : List (List (List β))) :
+    (hstack nVis Ts).length = nVis
+    ∧ ∀ k, k < nVis → (hstack nVis Ts).getD k [] = Ts.flatMap fun T => T.getD k [] :=
+  ⟨hstack_length nVis Ts, fun k hk => hstack_row nVis Ts k hk⟩
+
+/-- (d5) composed with (b1): the data vector of a linear object with mapping matrix `M`, written
+    directly in terms of `M` — `D[c] = Σ_k ( Re V_k · (Σ_p M[p,c] cos θ_pk) / (Re σ_k)²
+    + Im V_k · (Σ_p M[p,c] sin θ_pk) / (Im σ_k)² )`. -/
+theorem d_data_vector_from_mapping_matrix [Field α] [BEq α] [LawfulBEq α] (cos sin : α → α) (pi : α)
+    (preload : Bool) (M : List (List α)) (nCols : Nat) (grid uv : List (α × α))
+    (hM : M.length = grid.length) (vis noise : List (Cx α)) :
+    (dataVector (transformMappingMatrix keepNonzero cos sin pi preload M nCols grid uv)
+        uv.length nCols vis noise).toList
+      = (List.range nCols).map fun c =>
+          ((List.range uv.length).map fun k =>
+            (vis.getD k ⟨0, 0⟩).re
+                * ((List.range M.length).map fun p =>
+                    matAt M p c * cos (phase pi (at2 grid p) (at2 uv k))).sum
+                / ((noise.getD k ⟨0, 0⟩).re ^ 2)
+            + (vis.getD k ⟨0, 0⟩).im
+                * ((List.range M.length).map fun p =>
+                    matAt M p c * sin (phase pi (at2 grid p) (at2 uv k))).sum
+                / ((noise.getD k ⟨0, 0⟩).im ^ 2)).sum := by
+  rw [d_data_vector, b_transformed_mapping_matrix cos sin pi preload M nCols grid uv hM]
+  apply List.map_congr_left
+  intro c hc
+  congr 1
+  apply List.map_congr_left
+  intro k hk
+  rw [cxAt_table uv.length nCols _ k c (by simpa using hk) (by simpa using hc)]
+
 /-! ## non-vacuity -/
 
 /-- the two hypotheses of the adjoint clause hold for the real cosine and sine … -/
